@@ -3,6 +3,7 @@ package sa
 import (
 	"fmt"
 	"go/types"
+	"os"
 	"sort"
 	"strings"
 
@@ -42,6 +43,7 @@ func runC08(c *Ctx) {
 	r, a := c.R, c.A
 	r.Rule("R1", "every value sent on the outbound queue is Raw's parameter truncated at the first CR or LF (exactly these two separators), and the only sender is Raw")
 	r.Rule("R2", "every write to the connection writer is WriteString(line + CRLF) with line the write function's parameter, received unmodified from the outbound queue, followed by exactly one Flush; nothing else is handed the socket or writer")
+	r.Rule("R4", "what is on the wire is whole lines only because there is one writer: the write function is called, by plain call, from the body of exactly one connection goroutine (shared with C09.R3) - a second caller (a flush of the queue from Close, say) runs WriteString/Flush on the same bufio.Writer concurrently and splits a line")
 	r.Rule("R3", "for every exported *Conn method that reaches Raw through static calls (not through handler dispatch), every string it passes to Raw begins with the method's verb followed by space or end; methods delegating to another command method have the same verb")
 
 	funcs := c.clientFuncs()
@@ -154,6 +156,16 @@ func runC08(c *Ctx) {
 			}
 			r.Add("R2", "write-arg:"+c.FuncKey(cs.Parent()), c.InstrPos(cs), c.FuncKey(cs.Parent()), "the written line is the value dequeued from the outbound queue, unmodified", ok, "argument "+arg.Name())
 		}
+		// one writer (shared with C09.R3): the buffered writer is not safe for concurrent use - a second goroutine
+		// appending while a flush is pending makes the tail of one line go out as a line of its own
+		writers := map[*ssa.Function]bool{}
+		for _, cs := range c.Callers(top) {
+			fn := cs.Parent()
+			writers[fn] = true
+			ok := a.IsMember(fn) && fn.Parent() == nil && kindName(cs) == "call"
+			r.Add("R4", "write-caller:"+c.FuncKey(fn), c.InstrPos(cs), c.FuncKey(fn), "lines are written by a connection goroutine's own body only", ok, kindName(cs)+" in "+c.FuncKey(fn))
+		}
+		r.Exactly("R4", "functions that call the write function", len(writers), 1)
 		nFl := 0
 		funcInstrs(writeFn, func(in ssa.Instruction) {
 			if calleeName(callOf(in)) == "(*bufio.Writer).Flush" {
@@ -249,12 +261,21 @@ func runC08(c *Ctx) {
 			for i, av := range cs.Common().Args {
 				args[i] = fl.At(av, cs.Block())
 			}
-			sub := fl.WithParamsAt(callee, args, cs)
+			sub := fl.Ctx(cs)
+			if sub == nil {
+				sub = fl.WithParamsAt(callee, args, cs)
+			}
 			for _, x := range raws {
 				direct++
 				r.Sites++
 				ab := sub.At(x.Common().Args[1], x.Block())
 				ok, why := ab.startsWithVerb(verb)
+				if !ok && os.Getenv("GOIRCSA_DEBUG") != "" {
+					for i, av := range cs.Common().Args {
+						why += fmt.Sprintf(" | arg%d=%s", i, fl.At(av, cs.Block()))
+					}
+					why += sub.DebugDump()
+				}
 				r.Add("R3", "verb:"+fn.Name()+":via:"+callee.Name(), c.InstrPos(x), c.FuncKey(fn), "line sent by helper "+callee.Name()+" on behalf of "+fn.Name()+" begins with "+verb+" then space or end", ok, why)
 				helperChecked[callee] = true
 			}
